@@ -184,18 +184,43 @@ def validate_traces(trace_module, events, workdir, chunk=20000, cfg=None):
 
     verdicts = {}
     cmd = ""
-    with ThreadPoolExecutor(max_workers=NCPU) as ex:
-        for fn, r, ch in zip(files, ex.map(one, files), chunks):
-            cmd = r["cmd"]
-            if tlc_failed(r) or r["distinct"] != len(ch) + 1:
+
+    def whole(fn_ch):
+        """Runs one chunk to the end.  An event TLC cannot evaluate (an integer beyond 32 bits, an index outside a sequence - which
+        only happens when the code under test returned something far outside the model's value range) gets the verdict
+        NOT_EVALUABLE and validation goes on behind it: verdicts stay total.  TLC not starting at all, or more than 40 such
+        events in a chunk, is a machinery failure."""
+        fn, ch = fn_ch
+        out_verdicts, offset, rounds = {}, 0, 0
+        cur_fn, cur = fn, ch
+        while True:
+            r = one(cur_fn)
+            out_verdicts.update(parse_verdicts(r["out"]))
+            if not tlc_failed(r) and r["distinct"] == len(cur) + 1:
+                return out_verdicts, r["cmd"]
+            k = r["distinct"] - 1
+            if r["distinct"] <= 0 or k >= len(cur) or rounds >= 40:
                 sys.stderr.write(r["out"][-3000:])
-                k = r["distinct"] - 1 if 0 < r["distinct"] <= len(ch) else 0
-                sys.stderr.write("\nevent TLC stopped at: " + json.dumps(ch[k], default=str)[:3000] + "\n")
-                i = r["out"].find("Error:")
-                sys.stderr.write(r["out"][i:i + 600] + "\n")
-                raise MachineryError("trace validation did not consume %s (%d events, %d states)" %
-                                     (fn, len(ch), r["distinct"]))
-            verdicts.update(parse_verdicts(r["out"]))
+                raise MachineryError("trace validation did not consume %s (%d events, %d states)" % (cur_fn, len(cur), r["distinct"]))
+            i = r["out"].find("Error:")
+            sys.stderr.write("TLC could not evaluate event %s: %s\n%s\n" % (cur[k].get("id"), r["out"][i:i + 300].replace("\n", " | "),
+                                                                         json.dumps(cur[k], default=str)[:1500]))
+            out_verdicts.setdefault(cur[k]["id"], []).append("NOT_EVALUABLE")
+            cur = cur[k + 1:]
+            rounds += 1
+            if not cur:
+                return out_verdicts, r["cmd"]
+            cur_fn = "%s.r%d" % (fn, rounds)
+            with open(cur_fn, "w") as f:
+                for ev in cur:
+                    f.write(json.dumps(ev, separators=(",", ":")) + "\n")
+
+    with ThreadPoolExecutor(max_workers=NCPU) as ex:
+        for v, c in ex.map(whole, list(zip(files, chunks))):
+            cmd = c
+            for k2, v2 in v.items():
+                verdicts.setdefault(k2, [])
+                verdicts[k2] += [x for x in v2 if x not in verdicts[k2]]
     return verdicts, len(events), cmd
 
 
@@ -304,6 +329,12 @@ class Result:
         for i, clauses in verdicts.items():
             ev = byid.get(i)
             for c in clauses:
+                if c == "NOT_EVALUABLE":
+                    # the recorded result lies outside the value range the specification can evaluate: wrong outright
+                    c = self.prop + "_recorded_result_outside_the_value_range_of_the_specification"
+                    self.per_clause[c] = self.per_clause.get(c, 0) + 1
+                    self.violations.append((c, ev))
+                    continue
                 self.per_clause[c] = self.per_clause.get(c, 0) + 1
                 if relevant and not relevant(c):
                     continue
